@@ -203,3 +203,20 @@ Definition zz_eq (a b : Z * Z) : bool := Z.eqb (fst a) (fst b) && Z.eqb (snd a) 
 Definition class_flat (keys : list (Z * Z)) : list Z :=
   map (fun i => Z.of_nat (class_of (Z * Z) zz_eq keys i (0, 0)%Z)) (seq 0 (length keys))
   ++ [777%Z] ++ map Z.of_nat (reps (Z * Z) zz_eq keys (0, 0)%Z).
+
+(* ---- adjoint gradient (C08) ---------------------------------------------------------------- *)
+Definition unit_mat (n r c : nat) : gmat :=
+  map (fun i => map (fun j => if Nat.eqb i r && Nat.eqb j c then g1 else g0) (seq 0 n)) (seq 0 n).
+Definition gdot (u v : list G) : G := @dot GK u v.
+Definition objective (d2 : nat) (pts : list (ptensor GK)) (props : list (gmat * gmat)) (rho0 target : list G) (N : nat) : G :=
+  let pr := fun k => nth k props ([], []) in
+  let st := compute_dynamics d2 pts (fun _ => None) (fun _ => None)
+              (fun k => @matT GK (fst (pr k))) (fun k => @matT GK (snd (pr k))) false N rho0 in
+  gdot target (nth 0 st []).
+Fixpoint replace_nth {A} (n : nat) (x : A) (l : list A) : list A :=
+  match l, n with [], _ => [] | _ :: t, O => x :: t | h :: t, S n' => h :: replace_nth n' x t end.
+(* the rank-4 tensor of step i: T[a,b,c,d] = objective with P1_i := E_{b a}, P2_i := E_{d c} *)
+Definition grad_flat (d2 : nat) pts props rho0 target (N i : nat) : list Z :=
+  flatG (flat_map (fun a => flat_map (fun b => flat_map (fun c => map (fun e =>
+     objective d2 pts (replace_nth i (unit_mat d2 b a, unit_mat d2 e c) props) rho0 target N)
+     (seq 0 d2)) (seq 0 d2)) (seq 0 d2)) (seq 0 d2)).
